@@ -171,6 +171,17 @@ func rtExec(c *Ctx, op string) {
 		return fn.scan(ctx, api.PackType(fmtName), uf, rio.Placement_Direct, api.WarehouseLocation("file://"+ware), rio.Monitor{})
 	})
 	c.EmitR(op+" #scan", modelOp, resTok(id2, err2, pan2))
+	// the library's other scan modes (placement none / unset) must create nothing on the local filesystem either
+	for _, pm := range []rio.PlacementMode{rio.Placement_None, ""} {
+		_, nopeBefore := os.Lstat("/nope")
+		safeCall(func() (api.WareID, error) {
+			return fn.scan(ctx, api.PackType(fmtName), uf, pm, api.WarehouseLocation("file://"+ware), rio.Monitor{})
+		})
+		if _, nopeAfter := os.Lstat("/nope"); nopeBefore != nil && nopeAfter == nil {
+			c.PropFail("scan-creates-files", fmt.Sprintf("Scan with placement %q created /nope on the host filesystem", pm), op)
+			os.RemoveAll("/nope")
+		}
+	}
 	if resTok(id2, err2, pan2) != "ok "+id1.Hash {
 		c.PropFail("roundtrip-id", fmt.Sprintf("scan of the stored ware gives %s, pack gave %s", resTok(id2, err2, pan2), id1.Hash), op)
 	}
